@@ -1,22 +1,26 @@
 #!/bin/bash
-# Must-fail corpus: applies every seeded change (or those of one property: selftest.sh C05) to a scratch copy of /repo
-# and expects the check that is recorded as catching it (meta.json detected_by, the change's own property first) to exit 1.
-# usage: selftest.sh [Cxx] [-j N]
+# Must-fail corpus: applies seeded changes to scratch copies of /repo (removed afterwards) and expects the check to exit 1.
+# usage: selftest.sh            every seeded change, with the check recorded as catching it (own property first)
+#        selftest.sh Cxx        only the changes whose meta.json lists Cxx under detected_by, run against check Cxx
+# Prints one line per change: "<id> detected by <check>" | "<id> MISSED by <check> (exit=..)" | "<id> SKIPPED (...)".
 cd /verif
-filter=${1:-}
-jobs=4
+want=${1:-}
+jobs=${SELFTEST_JOBS:-4}
 run_one() {
-  d=$1
+  d=$1; want=$2
   id=$(basename $d)
   prop=${id%%.*}
   chk=$(python3 -c "
-import json,sys
+import json
 m=json.load(open('$d/meta.json')); db=m.get('detected_by') or []
-print('$prop' if '$prop' in db or not db else db[0])")
+w='$want'
+if w: print(w if w in db else '')
+else: print('$prop' if ('$prop' in db or not db) else db[0])")
+  [ -z "$chk" ] && return
   out=$(scripts/mutant.sh /verif/$d/patch.diff $chk --no-replay 2>&1)
   rc=$(echo "$out" | grep -o 'exit=[0-9]*' | tail -1)
   if echo "$out" | grep -q PATCH-FAILED; then echo "$id SKIPPED (patch does not apply to this tree)"; return; fi
   if [ "$rc" = "exit=1" ]; then echo "$id detected by $chk"; else echo "$id MISSED by $chk ($rc)"; fi
 }
 export -f run_one
-ls -d seeded/${filter}*.? 2>/dev/null | xargs -P $jobs -I{} bash -c 'run_one {}'
+ls -d seeded/C??.? 2>/dev/null | xargs -P $jobs -I{} bash -c "run_one {} '$want'"
